@@ -1,11 +1,13 @@
 from .common import H
 
-# GALOIS_DEBUG_SKIP: Debug (asan) builds do not print gDebug lines. The MPI ranks spin while they wait for each other, so the
+# GALOIS_DEBUG_SKIP: Debug (asan) builds do not print gDebug lines. VERIF_NO_HANG_MONITOR: a rank that spins while it waits for a
+# descheduled peer process looks exactly like a hang to the in-process monitor; liveness is left to the driver watchdog (inconclusive)
+# and to the logical send bound of the asynchronous loop. The MPI ranks spin while they wait for each other, so the
 # process count x threads is kept <= 8 (topology "2": two cores per rank) and every run is bounded by case counts.
-ENV = dict(GALOIS_DEBUG_SKIP=1)
+ENV = dict(GALOIS_DEBUG_SKIP=1, VERIF_NO_HANG_MONITOR=1)
 
-QUICK = {1: 30, 2: 45, 3: 45, 4: 60}
-THOROUGH = {1: 150, 2: 500, 3: 500, 4: 700}
+QUICK = {1: 30, 2: 70, 3: 70, 4: 75}
+THOROUGH = {1: 100, 2: 300, 3: 300, 4: 450}
 
 
 def c18(tier):
@@ -14,10 +16,16 @@ def c18(tier):
     for np in (4, 3, 2, 1):
         runs.append(H("c18_gluon", "dist", plan[np], "2" if np > 1 else "1,1", env=ENV, mpi=np, params=dict(salt=np),
                       timeout_per_case=15, timeout_base=150))
+    # ASan + UBSan build with assertions on (Gluon's own asserts, e.g. bit counts of sender and receiver). Automatic metadata mode
+    # only: with an enforced mode an empty message is deserialised into a never-allocated PODResizeableArray, whose assign() calls
+    # memcpy(nullptr, p, 0) (UBSan nonnull; libgalois/include/galois/PODResizeableArray.h:166 - reported, outside C18's statement).
+    for np, n in (((2, 12), (4, 12)) if tier == "quick" else ((2, 80), (3, 80), (4, 80))):
+        runs.append(H("c18_gluon", "dist-asan", n, "2", env=ENV, mpi=np, params=dict(salt=20 + np, mode=0),
+                      timeout_per_case=40, timeout_base=240))
     if tier == "thorough":
         # same plan, other random inputs, sockets = 2 x 1 core (other thread-pool layout), no streaming policies
         for np in (2, 4):
-            runs.append(H("c18_gluon", "dist", 250, "1,1", env=ENV, mpi=np, params=dict(salt=10 + np, streaming=0),
+            runs.append(H("c18_gluon", "dist", 150, "1,1", env=ENV, mpi=np, params=dict(salt=10 + np, streaming=0),
                           timeout_per_case=15, timeout_base=150))
     return runs
 
@@ -55,7 +63,9 @@ SPEC = dict(
     require={"rounds": 400, "mirrors_checked": 20000, "cross_host_updates": 10000, "multi_contribution_nodes": 2000,
              "written_mirrors": 5000, "async_rounds": 20, "continuation_rounds": 80, "nobitset_rounds": 40,
              "rounds_mode_auto": 100, "rounds_mode_bitset": 20, "rounds_mode_offsets": 20, "rounds_mode_gids": 20,
-             "rounds_mode_dense": 20, "cases_np2": 10, "cases_np3": 10, "cases_np4": 10},
+             "rounds_mode_dense": 20, "rank0_built_reduce_bitset": 20, "rank0_built_reduce_offsets": 20,
+             "rank0_built_reduce_gids": 20, "rank0_built_reduce_dense": 20, "rank0_built_broadcast_bitset": 20,
+             "rank0_built_broadcast_offsets": 20, "rank0_built_broadcast_gids": 20, "rank0_built_broadcast_dense": 20, "cases_np2": 10, "cases_np3": 10, "cases_np4": 10},
     assumptions=[
         "Eligibility (derived from GluonSubstrate::sync_*_to_*(), nothingToSend/Recv, isNotCommPartnerCVC and the apps' operators): a "
         "mirror is written 'at source' only if it has local outgoing edges, 'at destination' only if it has local incoming edges, "
